@@ -14,4 +14,5 @@ package ioutil
 //@   call (*File).Chmod set ingChmodOK = result == nil && args.mode == 384
 //@   call io.Copy requires [C18:chmod-0600-before-write] ingChmodOK
 //@   ensures [C18:temp-in-dir] ingestErr == nil ==> tempIn(path, dir)
-//@   modifies alloc, elems[byte], elems[any], ghost.readerOver
+//@   ensures [C18:temp-file-is-owner-only] ingestErr == nil ==> fileMode(path) == 384
+//@   modifies alloc, elems[byte], elems[any], ghost.readerOver, ghost.fileMode
